@@ -372,6 +372,19 @@ _NKEEP = []
 def getattr_sym(I, st, v, name, fr, k):
     t = v.t
     hint = v.hint
+    duck = getattr(I.cur, "duck_attrs", None) if I.cur is not None else None
+    if duck and hint is None and name in duck:
+        # attribute of a caller-supplied (duck-typed) object: an arbitrary value, possibly absent
+        note(I, f"duck-typed attribute .{name}: an arbitrary value (None when absent via getattr default); calls go through the assumed duck contracts")
+        def okd(s2):
+            val = s2.read("$duck_" + name, get_loc(t))
+            s2.fact(z3.Implies(is_ref(val), get_loc(val) < s2.frontier))
+            return k(s2, Sym(val, None))
+        has = duck_has(name, t)
+        if fr.spec:
+            val = st.read("$duck_" + name, get_loc(t))
+            return k(st, Sym(z3.If(has, val, NONE), None))      # spec reading: getattr(x, name, None)
+        return I.branch(st, has, okd, lambda s2: I.raise_(s2, "builtins.AttributeError", f".{name} on None/primitive"))
     if hint is None and not z3.is_false(z3.simplify(is_ref(t))) and (name not in PRIM_METHODS or not I.feasible(st, z3.Not(is_ref(t)))):
         hint = narrow(I, st, v, name)
         if hint is not None:
@@ -439,6 +452,11 @@ def getattr_sym(I, st, v, name, fr, k):
     return I.branch(st, is_ref(t), ok, lambda s2: I.raise_(s2, "builtins.AttributeError", f".{name} on None/primitive"))
 
 
+def duck_has(name, t):
+    """hasattr(x, name) for a duck-typed attribute: an uninterpreted predicate of the object (objects only)"""
+    return z3.And(is_ref(t), z3.Function("duckhas_" + name, z3.IntSort(), z3.BoolSort())(get_loc(t)))
+
+
 def _is_instance_field(I, hint, name):
     if field_hint(I, hint, name) is not None:
         return True
@@ -457,6 +475,14 @@ def call_sym(I, st, f, args, kwargs, fr, k):
     Allowed only when the sidecar declares how to treat it: `c.opaque_calls = {'<local name>': 'ctor'}`:
     'ctor' = allocates and returns a fresh object, modifies nothing that existed, may raise any Exception."""
     mode = getattr(I.cur, "opaque_calls", {}).get(getattr(f, "origin", None)) if I.cur else None
+    if mode is not None and mode.startswith("contract:"):
+        # a duck-typed callable (a method of a caller-supplied object): used at the ASSUMED contract the sidecar names
+        from . import dsl as _dsl
+        cc = _dsl.REG.contracts.get(mode[9:])
+        if cc is None or cc.mode != "assumed":
+            raise Unsupported(f"opaque call `{f.origin}`: no assumed contract {mode[9:]}")
+        note(I, f"call through `{f.origin}`: duck-typed callable used at the assumed contract {mode[9:]}")
+        return I.apply_contract(st, cc, None, list(args), dict(kwargs), fr, k)
     if mode != "ctor":
         raise Unsupported(f"call of symbolic callable {f!r}")
     note(I, f"call through `{f.origin}`: opaque constructor (fresh result, no effect on existing objects, may raise any Exception)")
@@ -925,6 +951,9 @@ def sf_hasattr(I, st, e, fr, k):
         x, n = vals
         name = concrete_key(I, s2, n)
         if isinstance(x, Sym) and isinstance(name, str):
+            duck = getattr(I.cur, "duck_attrs", None) if I.cur is not None else None
+            if duck and name in duck and not x.hint:
+                return k(s2, Sym(mk_bool(duck_has(name, x.t))))
             fn = HASATTR.get(name)
             if fn is not None:
                 return k(s2, Sym(mk_bool(fn(I, s2, x))))
@@ -948,7 +977,12 @@ def sf_uf(I, st, e, fr, k):
 
 def sf_K(I, st, e, fr, k):
     """K('qualified.ClassName'): a class by its qualified name (spec only; avoids short-name ambiguity)"""
-    return k(st, ClassV(I.w.resolve_class(e.args[0].value)))
+    q = e.args[0].value
+    mname, _, attr = q.rpartition(".")
+    mod = I.w.facts["modules"].get(mname)
+    if mod is not None and attr in mod["globals"] and q not in I.w.class_ids:
+        return k(st, I.from_fact(mod["globals"][attr]))        # a module-level constant (e.g. a sentinel) by qualified name
+    return k(st, ClassV(I.w.resolve_class(q)))
 
 
 def sf_matches(I, st, e, fr, k):
@@ -1162,6 +1196,11 @@ def b_type(I, st, args, kwargs, fr, k):
     if isinstance(x, Sym) and x.hint:
         note(I, "type(x) is the declared class (subclasses are assumed to satisfy the base contract)")
         return k(st, ClassV(x.hint))
+    if isinstance(x, Sym):
+        note(I, "type(x) of a value of unknown class: an opaque class object (only its formatting is used)")
+        loc = z3.Int(I.w.fresh("a"))
+        st.fact(loc >= 0, loc < st.frontier)
+        return k(st, Sym(mk_ref(loc)))
     raise Unsupported(f"type({x!r})")
 
 
@@ -1375,7 +1414,30 @@ def _late_regex():
     BUILTINS.update({"re.Match.groups": regex.b_match_groups, "re.Match.group": regex.b_match_group, "re.Match.span": regex.b_match_span})
 
 
+def _opaque_protocol(what, cls, exc="builtins.TypeError"):
+    """memoryview(x) / iter(x) of a caller-supplied object: whether the object implements the protocol is unknown, so the
+    call either raises TypeError or returns a fresh object (buffer view / iterator); nothing else is touched."""
+    def f(I, st, args, kwargs, fr, k):
+        x = as_sym(I, st, args[0])
+        note(I, f"{what}(x) on a duck-typed object: raises TypeError or returns a fresh {cls.split('.')[-1]} (unknown protocol support); bytes-like arguments always succeed")
+        outs = []
+        bytes_like = z3.Or(is_byt(x.t), I.w.isinstance_term(x.t, ["builtins.bytearray", "builtins.memoryview", "array.array"])) if what == "memoryview" else z3.BoolVal(False)
+        s2 = st.fork()
+        if I.feasible(s2, z3.Not(bytes_like)):
+            s2.pc.append(z3.Not(bytes_like))
+            outs += I.raise_(s2, exc, what)
+        loc = I.alloc(st, cls)
+        if what == "memoryview":
+            n = z3.Int(I.w.fresh("nbytes"))
+            st.fact(n >= 0, z3.Implies(is_byt(x.t), n == z3.Length(get_y(x.t))))
+            st.write("nbytes", loc, mk_int(n))
+        return outs + k(st, Sym(mk_ref(loc), cls))
+    return f
+
+
+BUILTINS["iter"] = _opaque_protocol("iter", "builtins.object")
 CONSTRUCTORS = {
+    "builtins.memoryview": _opaque_protocol("memoryview", "builtins.memoryview"),
     "builtins.float": b_float, "builtins.int": b_int, "builtins.bool": b_bool, "builtins.list": b_list,
     "builtins.tuple": b_tuple, "builtins.dict": b_dict, "builtins.frozenset": b_frozenset(True),
     "builtins.set": b_frozenset(False), "builtins.type": b_type, "builtins.str": b_str,
